@@ -119,12 +119,23 @@ def coverage_of(runs, nontrivial=lambda c: len(c.events) >= 5, key=None):
 # oracles
 # ---------------------------------------------------------------------------
 
+def eagain_noise(c):
+    """openat2(RESOLVE_IN_ROOT) answers EAGAIN whenever *any* rename or mount happened on the machine during the walk
+    (a global sequence counter), so the kernel backend may report EAGAIN (one-shot open) or, after 16 tries,
+    SafetyViolation for reasons that have nothing to do with the case's tree.  Such an outcome is inconclusive."""
+    if c.cfg.get("backend") != "k":
+        return False
+    return c.res[:3] == ["err", "OsError", "11"] or c.res[:2] == ["err", "SafetyViolation"]
+
+
 def oracle_kernel_equiv(c):
     """C01: the emulated / kernel backend result equals what openat2(RESOLVE_IN_ROOT) gives."""
     if c.kern is None:
         return None
     a = canon_res(c.res)
     k = canon_res(c.kern)
+    if eagain_noise(c):
+        return None
     if a[0] == "ok" and a[1] == "fd" and k[0] == "ok" and k[1] == "fd":
         if a[2:4] != k[2:4]:
             return f"object differs: libpathrs {a[2:4]} kernel {k[2:4]}"
@@ -194,6 +205,8 @@ def snap_key(c):
 def oracle_backends_agree(k, e):
     """C04: same outcome on both backends."""
     a, b = canon_res(k.res), canon_res(e.res)
+    if eagain_noise(k):
+        return None
     if a != b:
         return f"outcome differs: kernel backend {a}, emulated backend {b}"
     if after_key(k) != after_key(e):
@@ -421,6 +434,87 @@ def check_C10(v, tier, seed):
     cov["first_use_initialisation"] = init
     cov["evaluations"] += init["runs"]
     return cov
+
+
+def oracle_effect(c):
+    """C12/C13/C14: the tree after the call is exactly the expected one (computed by the harness from the snapshot before,
+    the reported outcome and independent in-root look-ups)."""
+    if c.res[:1] == ["panic"]:
+        return "the operation panicked"
+    for t in c.extra.get("effect", []):
+        if t and t[0] == "DIFF":
+            return " ".join(t[1:])
+    return None
+
+
+def effect_stats(runs):
+    st = {}
+    for r in runs:
+        for c in r.cases:
+            for t in c.extra.get("effect", []):
+                k = " ".join(t[:2])
+                st[k] = st.get(k, 0) + 1
+    return st
+
+
+def check_C14(v, tier, seed):
+    n = sizes(tier, 1200, 20000)
+    runs = [Run("C14-valid", ["root", "--ops", "single_valid", "--seed", str(seed), "--n", str(n)]),
+            Run("C14-single", ["root", "--ops", "single", "--seed", str(seed + 31), "--n", str(n // 2)]),
+            Run("C14-valid-enosys", ["root", "--ops", "single_valid", "--seed", str(seed + 7919), "--n", str(max(n // 3, 100)), "--no-openat2"])]
+    concrete = run_oracle_cases(v, runs, oracle_effect, "a single-entry operation did not have exactly the effect of the *at call on (in-root parent, final name)")
+    concrete |= run_oracle_cases(v, runs, oracle_outside_untouched, "a single-entry operation changed something outside the root")
+    broken = generic_tie(v, runs, concrete)
+    cov = coverage_of(runs)
+    cov["tie_mismatches"] = broken
+    cov["effect_verdicts"] = effect_stats(runs)
+    return cov
+
+
+def check_C12(v, tier, seed):
+    n = sizes(tier, 1000, 15000)
+    runs = [Run("C12-mkdir_all", ["root", "--ops", "mkdir_all", "--seed", str(seed), "--n", str(n)]),
+            Run("C12-mkdir_all-enosys", ["root", "--ops", "mkdir_all", "--seed", str(seed + 7919), "--n", str(max(n // 3, 100)), "--no-openat2"])]
+    concrete = run_oracle_cases(v, runs, oracle_effect, "mkdir_all did not create exactly the missing directories")
+    broken = generic_tie(v, runs, concrete)
+    cov = coverage_of(runs)
+    cov["tie_mismatches"] = broken
+    cov["effect_verdicts"] = effect_stats(runs)
+    cov.update(race_suite(v, "C12", "mkdir_all", tier, seed))
+    return cov
+
+
+def check_C13(v, tier, seed):
+    n = sizes(tier, 1000, 15000)
+    runs = [Run("C13-remove_all", ["root", "--ops", "remove_all", "--seed", str(seed), "--n", str(n)]),
+            Run("C13-remove_all-enosys", ["root", "--ops", "remove_all", "--seed", str(seed + 7919), "--n", str(max(n // 3, 100)), "--no-openat2"])]
+    concrete = run_oracle_cases(v, runs, oracle_effect, "remove_all did not remove exactly the named subtree")
+    concrete |= run_oracle_cases(v, runs, oracle_outside_untouched, "remove_all changed something outside the root")
+    broken = generic_tie(v, runs, concrete)
+    cov = coverage_of(runs)
+    cov["tie_mismatches"] = broken
+    cov["effect_verdicts"] = effect_stats(runs)
+    cov.update(race_suite(v, "C13", "remove_all", tier, seed))
+    return cov
+
+
+def race_suite(v, prop, op, tier, seed):
+    """threads racing the same operation; every thread's transcript is replayed through the model"""
+    n = sizes(tier, 60, 600)
+    r = Run(f"{prop}-race", ["race", "--op", op, "--seed", str(seed), "--n", str(n)])
+    bad = 0
+    rounds = 0
+    for c in r.cases:
+        for t in c.extra.get("race", []):
+            rounds += 1
+            if t and t[0] == "BAD":
+                bad += 1
+                facts = case_facts(c)
+                facts["kind"] = "oracle"
+                facts["oracle"] = " ".join(t)
+                v.fail(facts, case_replay(c, f"concurrent {op} calls: " + " ".join(t[1:])))
+    broken = generic_tie(v, [r], set())
+    return {"race_rounds": rounds, "race_thread_transcripts_replayed": len(r.cases), "race_bad": bad, "race_tie_mismatches": broken}
 
 
 def check_C03(v, tier, seed):
@@ -1105,6 +1199,9 @@ PROPS = {
     "C17": check_C17,
     "C02": check_C02,
     "C10": check_C10,
+    "C12": check_C12,
+    "C13": check_C13,
+    "C14": check_C14,
 }
 
 
